@@ -633,6 +633,17 @@ func (ex *Exec) jsonDecodeInto(n *JNode, t types.Type, c *Cell, depth int) *json
 		}
 		return nil
 	}
+	if namedPath(t) == "k8s.io/apimachinery/pkg/apis/meta/v1/unstructured.Unstructured" {
+		// Unstructured.UnmarshalJSON: the document becomes the content map (Object map[string]interface{}); a
+		// document that is not an object is an error in the real decoder too
+		if n.kind != "obj" && n.kind != "null" {
+			return &jsonDecodeError{"json: cannot unmarshal " + n.kind + " into Unstructured"}
+		}
+		if len(c.subs) != 1 {
+			ex.unsupported("unexpected layout of unstructured.Unstructured")
+		}
+		return ex.jsonDecodeInto(n, c.subs[0].typ, c.subs[0], depth+1)
+	}
 	if np := namedPath(t); np != "" && ex.hasMethod(t, "UnmarshalJSON") {
 		ex.unsupported("json.Unmarshal into type with custom UnmarshalJSON: " + np)
 	}
